@@ -257,6 +257,42 @@ func discharge(ob *Obligation, dir string, timeoutMs int, confirm bool) {
 		}
 	}
 	cancel1()
+	// not proved within the first, short stage: before the long race, try it case by case over the paths merged at the last join (each case is
+	// a smaller query in which the merged terms collapse; all cases unsat == the obligation holds)
+	if proved == nil && fullRes.verdict != "sat" && ob.caseMap == nil && len(ob.Splits) >= 2 && !ob.Cover {
+		c := ob.ctx.c
+		all := true
+		secs := total
+		for i := range ob.Splits {
+			d := *ob
+			d.Splits = nil
+			d.Name = fmt.Sprintf("%s#case%d", ob.Name, i+1)
+			d.caseName = fmt.Sprintf("%d of %d", i+1, len(ob.Splits))
+			genMu.Lock()
+			d.caseMap = map[*Term]*Term{}
+			d.caseFacts = nil
+			for j := 0; j < i; j++ {
+				d.caseMap[ob.Splits[j]] = c.False()
+				d.caseFacts = append(d.caseFacts, c.Not(ob.Splits[j]))
+			}
+			if i < len(ob.Splits)-1 {
+				d.caseMap[ob.Splits[i]] = c.True()
+			}
+			d.caseFacts = append(d.caseFacts, ob.Splits[i])
+			genMu.Unlock()
+			discharge(&d, dir, timeoutMs, false)
+			secs += d.Seconds
+			if d.Verdict != "unsat" {
+				all = false
+				break
+			}
+		}
+		if all {
+			ob.Verdict, ob.Solver, ob.Seconds = "unsat", fmt.Sprintf("case-split(%d)", len(ob.Splits)), secs
+			return
+		}
+		total = secs
+	}
 	if proved == nil && fullRes.verdict != "sat" {
 		// stage 2: race all three on the full query
 		ctx2, cancel2 := context.WithCancel(context.Background())
@@ -294,42 +330,6 @@ func discharge(ob *Obligation, dir string, timeoutMs int, confirm bool) {
 			confirmWith(ob, ob.File, proved.solver, timeoutMs)
 		}
 		return
-	}
-	// not proved as one query: try it case by case over the paths merged at the last join (each case is
-	// a smaller query in which the merged terms collapse; all cases unsat == the obligation holds)
-	if ob.caseMap == nil && len(ob.Splits) >= 2 && !ob.Cover {
-		c := ob.ctx.c
-		all := true
-		secs := total
-		for i := range ob.Splits {
-			d := *ob
-			d.Splits = nil
-			d.Name = fmt.Sprintf("%s#case%d", ob.Name, i+1)
-			d.caseName = fmt.Sprintf("%d of %d", i+1, len(ob.Splits))
-			genMu.Lock()
-			d.caseMap = map[*Term]*Term{}
-			d.caseFacts = nil
-			for j := 0; j < i; j++ {
-				d.caseMap[ob.Splits[j]] = c.False()
-				d.caseFacts = append(d.caseFacts, c.Not(ob.Splits[j]))
-			}
-			if i < len(ob.Splits)-1 {
-				d.caseMap[ob.Splits[i]] = c.True()
-			}
-			d.caseFacts = append(d.caseFacts, ob.Splits[i])
-			genMu.Unlock()
-			discharge(&d, dir, timeoutMs, false)
-			secs += d.Seconds
-			if d.Verdict != "unsat" {
-				all = false
-				break
-			}
-		}
-		if all {
-			ob.Verdict, ob.Solver, ob.Seconds = "unsat", fmt.Sprintf("case-split(%d)", len(ob.Splits)), secs
-			return
-		}
-		total = secs
 	}
 	ob.Seconds = total
 	if groundSat || fullRes.verdict == "sat" {
